@@ -25,7 +25,7 @@ def rId (w : String) : Option Nat :=
 def parseOp (ws : List String) : Op :=
   let bad := Op.bad (" ".intercalate ws)
   match ws with
-  | ["init", k, h] => match kindOfName k, hId h with | some k, some h => .init k h | _, _ => bad
+  | ["init", k] => match kindOfName k with | some k => .init k | none => bad
   | ["start", h, a, b] => match hId h, a.toNat?, b.toNat? with | some h, some a, some b => .start h a b | _, _, _ => bad
   | ["stop", h] => match hId h with | some h => .stop h | none => bad
   | ["again", h] => match hId h with | some h => .again h | none => bad
@@ -35,8 +35,8 @@ def parseOp (ws : List String) : Op :=
   | ["close", h] => match hId h with | some h => .close h | none => bad
   | ["async_send", h] => match hId h with | some h => .asyncSend h | none => bad
   | ["bind", h] => match hId h with | some h => .bind h | none => bad
-  | ["udp_send", r, h] => match rId r, hId h with | some r, some h => .udpSend r h | _, _ => bad
-  | ["work", r] => match rId r with | some r => .work r | none => bad
+  | ["udp_send", h] => match hId h with | some h => .udpSend h | none => bad
+  | ["work"] => .work
   | ["cancel", r] => match rId r with | some r => .cancel r | none => bad
   | ["stop_loop"] => .stopLoop
   | ["update_time"] => .updateTime
@@ -56,7 +56,7 @@ def hn (id : Nat) : String := s!"h{id - 2}"
 
 /-- canonical program text of an op (`start` always carries two numeric arguments) -/
 def opText : Op → String
-  | .init k id => s!"init {kindName k} {hn id}"
+  | .init k => s!"init {kindName k}"
   | .start h a b => s!"start {hn h} {a} {b}"
   | .stop h => s!"stop {hn h}"
   | .again h => s!"again {hn h}"
@@ -66,8 +66,8 @@ def opText : Op → String
   | .close h => s!"close {hn h}"
   | .asyncSend h => s!"async_send {hn h}"
   | .bind h => s!"bind {hn h}"
-  | .udpSend r h => s!"udp_send r{r} {hn h}"
-  | .work r => s!"work r{r}"
+  | .udpSend h => s!"udp_send {hn h}"
+  | .work => "work"
   | .cancel r => s!"cancel r{r}"
   | .stopLoop => "stop_loop"
   | .updateTime => "update_time"
@@ -112,8 +112,8 @@ def render : Event → List String
     | .work => [s!"cb work r{id} {a}"]
     | .udpSend => [s!"cb udp_send r{id} {a}"]
   | .endcb => ["endcb"]
-  | .poll t r =>
-    let head := s!"env poll timeout={t} clock={r.clock} done={r.done} ->"
+  | .poll it t r =>
+    let head := s!"env poll iter={it} timeout={t} clock={r.clock} done={r.done} ->"
     if r.eintr then [head ++ " EINTR"] else if r.deadlock then [head ++ " DEADLOCK"]
     else [head ++ String.join (r.batch.map fun (o, e) => s!" {ownerName o}:{e}")]
   | .obs o => [renderObs o]
